@@ -22,9 +22,10 @@ Messages
   * `message_roundtrip`     unpack (pack m ++ trailing) = m for every message of `MsgOk`
   * `header_counts`         the four header counts the encoder writes are the section lengths
 
-The pinned `parse_domain_name` has no jump limit (defect D2, property C05, not repaired here):
-a pointer cycle exhausts any fuel — see the `example` at the end; the theorems above are therefore
-stated for well-formed names, whose pointers lead to strictly earlier, already complete names.
+The pinned `parse_domain_name` had no jump limit (defect D2, repaired under property C05: a
+pointer that does not point before the start of the part being read is a `ValueError` — see the
+`example` at the end); the theorems above are stated for well-formed names, whose pointers lead
+to strictly earlier, already complete names, which the repaired decoder still accepts.
 -/
 namespace PyatvModel.Props.C04Dns
 open PyatvModel PyatvModel.C04.Dns
@@ -39,7 +40,8 @@ theorem name_roundtrip (pre r : Bytes) (ls : List Bytes) (h : LabelsOk ls) :
 /-- **Compression pointers are followed correctly to earlier offsets.** -/
 theorem name_wellformed (msg : Bytes) (s e : Nat) (ls : List Bytes) (h : WfName msg s ls e) :
     parseName msg s = ⟨none, ls, e⟩ := by
-  have := parseNameF_wf h (msg.length + 1) [] none (by have := h.end_le; omega)
+  have := parseNameF_wf h (nameFuel msg) s [] none
+    (by have := h.end_le; have := le_nameFuel msg; omega) (Nat.le_refl _)
   simpa [parseName] using this
 
 /-- the usual shape: a first name, anything in between, a second name that ends in a pointer to
@@ -156,8 +158,9 @@ example : parseName (List.replicate 12 0 ++ encName [[97], [108, 111, 99, 97, 10
 /-- wrong pointer mask would read offset 0xC00C instead of 0x000C: the model masks with 0x3F -/
 example : encPtr 12 = [0xC0, 0x0C] := by decide
 
-/-- D2 (C05): a pointer to itself exhausts the fuel `msg.length + 1` — the real loop never ends -/
-example : (parseName (List.replicate 12 0 ++ [0xC0, 0x0C]) 12).err = some .hang := by decide +kernel
+/-- D2 (C05), repaired: a pointer to itself does not point strictly backwards — `ValueError`
+    (the pinned loop never ended: `Props.C05.name_pinned_counterexample`) -/
+example : (parseName (List.replicate 12 0 ++ [0xC0, 0x0C]) 12).err = some .value := by decide +kernel
 
 /-- a message of the domain with every record form; the theorem applies to it -/
 def sample : Msg :=
